@@ -252,6 +252,49 @@ static void run_history(vf::Ctx& ctx, const Problem& P, Solver& es, vw::OpCtl& c
             }
         }
     }
+    // Start-vector scale invariance (exploration only; a probe of its own at the end of the history, not judged for accuracy): init(v0) and init(2^e v0) followed by
+    // the same compute() must give the same bits - the start vector is normalised first, and scaling by a power of two commutes with every rounding (no over/underflow
+    // at these sizes), so anything that still sees the norm of the user's vector (a threshold taken before the normalisation, say) shows as a difference. v0 is a
+    // reference eigenvector perturbed by 1e-2..1e-6 (tiny first residual: where such thresholds act) or gaussian.
+    if (P.clean && P.evecs.cols() == P.n)
+    {
+        VecS v0(P.n);
+        const bool near = r.coin(0.7);
+        const double delta = near ? std::pow(10.0, -(double) r.range(2, 6)) : 1.0;
+        const int j = (int) r.range(0, P.n - 1);
+        for (int i = 0; i < P.n; i++) v0[i] = (near ? CastTo<Scalar>::f(P.evecs(i, j)) : Scalar(0)) + Scalar(T(delta * r.gauss() / std::sqrt((double) P.n)));
+        // (float: smaller factors, so that no square of a component leaves the normal range - that would break the exactness argument, not the library)
+        const int e2 = (int) (sizeof(T) == 4 ? r.pick(std::vector<long>{-20, -10, 10, 20}) : r.pick(std::vector<long>{-45, -40, -20, 20, 40, 45}));
+        const VecS v1 = v0 * Scalar(T(std::ldexp(1.0, e2)));
+        ComputeArgs a{r.pick(SYM_SELECT), r.pick(std::vector<long>{2, 10, 50}), T(1e-8), SYM_SORT[0]};
+        auto run = [&](const VecS& v, long& ret, long& nit, long& nop, decltype(es.eigenvalues())& ev, decltype(es.eigenvectors())& U) {
+            ctl.limit = ctl.count + 8 * (4 + 2 * (long) P.ncv * (a.maxit + 2));
+            bool ok = false;
+            try { es.init(v.data()); ret = (long) es.compute(a.sel, a.maxit, a.tol, a.sort); ok = true; }
+            catch (const vw::WorkBoundExceeded&) {}
+            catch (const std::exception&) {}
+            ctl.limit = -1;
+            if (ok) { nit = (long) es.num_iterations(); nop = (long) es.num_operations(); ev = es.eigenvalues(); U = es.eigenvectors(); }
+            return ok;
+        };
+        long r0 = -1, r1 = -1, i0 = 0, i1 = 0, o0 = 0, o1 = 0;
+        decltype(es.eigenvalues()) ev0, ev1;
+        decltype(es.eigenvectors()) U0, U1;
+        const bool ok0 = run(v0, r0, i0, o0, ev0, U0), ok1 = run(v1, r1, i1, o1, ev1, U1);
+        ctx.count("start_vector_scale_probes");
+        if (near) ctx.count("start_vector_scale_probes/near-eigenvector");
+        if (ok0 && ok1)
+        {
+            bool same = r0 == r1 && i0 == i1 && o0 == o1 && ev0.size() == ev1.size() && U0.rows() == U1.rows() && U0.cols() == U1.cols();
+            for (Eigen::Index q = 0; same && q < ev0.size(); q++) same = ev0[q] == ev1[q];
+            for (Eigen::Index c = 0; same && c < U0.cols(); c++) for (Eigen::Index q = 0; same && q < U0.rows(); q++) same = U0(q, c) == U1(q, c);
+            if (!same)
+                ctx.violation(std::string(KIND[P.kind]) + "/result-depends-on-the-norm-of-the-start-vector",
+                              vf::J().kv("solver", KIND[P.kind]).kv("n", P.n).kv("nev", P.nev).kv("ncv", P.ncv).kv("start", near ? "eigenvector+perturbation" : "gaussian").kv("perturbation", delta)
+                                  .kv("scaled_by_2^", (long) e2).kv("returned", r0).kv("returned_scaled", r1).kv("iterations", i0).kv("iterations_scaled", i1).kv("operations", o0).kv("operations_scaled", o1).str());
+        }
+        else if (ok0 != ok1) ctx.violation(std::string(KIND[P.kind]) + "/result-depends-on-the-norm-of-the-start-vector", vf::J().kv("solver", KIND[P.kind]).kv("what", "one of the two runs threw").str());
+    }
     ctx.count("restarts", restarts_total);
     ctx.count("operator_applications", ctl.total);
     ctx.count("evals");
